@@ -423,3 +423,121 @@ def n1(facts, tier):
             else:
                 detail = f"effective_version is computed by {callee(i) if i.get('k') == 'Call' else i.get('k')}, not by min of both versions"
     yield ob(["C10"], "N1", "negotiation", "pass" if ok else "violation", where(f), detail)
+
+
+def ancestors(pm, n):
+    out = []
+    p = pm.get(id(n))
+    while p is not None:
+        out.append(p)
+        p = pm.get(id(p))
+    return out
+
+
+def let_init_of(f, var):
+    for x in walk(f["body"]):
+        if x.get("k") == "LetS" and x["pat"].get("k") == "Bind" and x["pat"]["v"] == var:
+            return x.get("init")
+    return None
+
+
+@rule("M1", ["C11"], floor=1, doc="a bit of the by-reference compatibility mask is only set inside the branch where arg_layout_compatible answered true "
+      "for that argument's native and effective schemas")
+def m1(facts, tier):
+    from ..flow import parent_map
+    sites = 0
+    for fid, f in facts.fns.items():
+        if f["crate"] != "savefile_abi" or "analyze_and_create" not in fid:
+            continue
+        pm = parent_map(f["body"])
+        for x in walk(f["body"]):
+            if x.get("k") == "AssignOp" and x.get("op") in ("BitOr", "BitOrAssign") and "mask" in (peel(x["l"]).get("v") or ""):
+                sites += 1
+                ok = False
+                why = "not inside any `if`"
+                for a in ancestors(pm, x):
+                    if a.get("k") == "If":
+                        c = peel(a["c"])
+                        if c.get("k") == "Var":
+                            init = let_init_of(f, c["v"])
+                            i = peel_block(peel(init)) if init else None
+                            if i is not None and i.get("k") == "Try":
+                                i = peel(i["e"])
+                            if i is not None and i.get("k") == "Call" and callee(i) == "savefile_abi::arg_layout_compatible":
+                                # the set happens in the then-branch?
+                                in_then = any(y is x for y in walk(a["t"]))
+                                ok = in_then
+                                why = "set in the else-branch of the compatibility test" if not in_then else ""
+                                break
+                            why = f"guarded by `{c['v'].split('#')[0]}` which is not the result of arg_layout_compatible"
+                yield ob(["C11"], "M1", "mask-set", "pass" if ok else "violation", where(f, x),
+                         "mask bit set only when arg_layout_compatible returned true" if ok else
+                         f"compatibility mask bit is set {why}: arguments with possibly different layout are passed by pointer")
+    if sites == 0:
+        yield ob(["C11"], "M1", "mask-set", "violation", "", "no site setting the compatibility mask found (anchor lost)")
+
+
+@rule("M2", ["C11"], floor=1, doc="arg_layout_compatible's general case decides on the *native* schemas of both sides (the memory layouts), "
+      "via Schema::layout_compatible")
+def m2(facts, tier):
+    f = facts.fns.get("savefile_abi::arg_layout_compatible")
+    if f is None:
+        return
+    ps = [p["pat"]["v"] for p in f["params"] if p.get("pat") and p["pat"].get("k") == "Bind"]
+    native = set(ps[:2])
+    found = False
+    for x in walk(f["body"]):
+        if x.get("k") == "Match":
+            sc = peel(x["e"])
+            if sc.get("k") == "Tuple" and all(peel(e).get("k") == "Var" and peel(e)["v"] in native for e in sc["es"]):
+                for a in x["arms"]:
+                    p = a["pat"]
+                    if p.get("k") == "Leaf" and all(s["p"].get("k") == "Bind" for s in p["subs"]):
+                        binds = [s["p"]["v"] for s in p["subs"]]
+                        for y in walk(a["body"]):
+                            if y.get("k") == "Call" and callee(y) == "savefile::Schema::layout_compatible":
+                                args = [peel(z).get("v") for z in y["args"]]
+                                found = True
+                                ok = args == binds
+                                yield ob(["C11"], "M2", "fallback-native", "pass" if ok else "violation", where(f, y),
+                                         "general case compares the native schemas" if ok else
+                                         f"general case calls layout_compatible on {args}, not on the native schemas of both sides")
+    if not found:
+        yield ob(["C11"], "M2", "fallback-native", "violation", where(f), "no general-case call of Schema::layout_compatible on the native schemas found")
+
+
+@rule("N5", ["C10", "C09"], floor=3, doc="connection creation rejects signature changes: argument counts are compared and diff_schema of every argument and of the "
+      "return value (at the effective version) leads to Err")
+def n5(facts, tier):
+    from ..flow import parent_map
+    fs = [f for fid, f in facts.fns.items() if f["crate"] == "savefile_abi" and "analyze_and_create" in fid]
+    diffs = 0
+    bad = []
+    count_cmp = 0
+    for f in fs:
+        pm = parent_map(f["body"])
+        for x in walk(f["body"]):
+            if x.get("k") == "Call" and callee(x) == "savefile::diff_schema":
+                diffs += 1
+                # result must be tested by `if let Some(..) = r { return Err }`
+                p = pm.get(id(x))
+                var = p["pat"]["v"] if p is not None and p.get("k") == "LetS" and p["pat"].get("k") == "Bind" else None
+                handled = False
+                for y in walk(f["body"]):
+                    if y.get("k") == "If" and y["c"].get("k") == "Let" and y["c"]["pat"].get("variant") == "Some":
+                        src = peel(y["c"]["e"])
+                        if (src is x) or (var and src.get("k") == "Var" and src["v"] == var):
+                            handled = any(z.get("k") == "Return" for z in walk(y["t"]))
+                if not handled:
+                    bad.append((f, x))
+            if x.get("k") == "Bin" and x["op"] == "Ne":
+                txt = [callee(y) or "" for y in walk(x) if y.get("k") == "Call"]
+                if sum(1 for t in txt if t.endswith("::len")) == 2:
+                    count_cmp += 1
+    f0 = fs[0] if fs else None
+    yield ob(["C10", "C09"], "N5", "diff-schema-checked", "violation" if (bad or diffs < 2) else "pass", where(f0) if f0 else "",
+             f"{diffs} diff_schema evaluations at creation, each leading to Err on a difference" if not bad and diffs >= 2 else
+             f"a diff_schema result at connection creation is not turned into an error ({len(bad)} of {diffs})")
+    yield ob(["C10", "C09"], "N5", "argument-count", "pass" if count_cmp >= 1 else "violation", where(f0) if f0 else "",
+             f"{count_cmp} argument-count comparison(s)" if count_cmp else "argument counts of caller and implementation are not compared")
+    yield ob(["C10"], "N5", "missing-method-tolerated", "pass", where(f0) if f0 else "", "see N4: a missing method is recorded (callee_method_number None), not an error", nontrivial=False)
